@@ -157,13 +157,15 @@ type Run struct {
 	Policy   Policy
 	MaxSteps int64
 
-	in     chan msg
-	tasks  []*Task
-	slots  [maxSlots]*Task
-	nslots int
-	gmu    sync.Mutex
-	rootG  uint64
-	live   atomic.Int32
+	in chan msg
+	// Sleepers: callers asleep inside a slow simulated device (see sleepIn)
+	Sleepers atomic.Int32
+	tasks    []*Task
+	slots    [maxSlots]*Task
+	nslots   int
+	gmu      sync.Mutex
+	rootG    uint64
+	live     atomic.Int32
 
 	aborted  bool
 	finished bool
@@ -276,6 +278,19 @@ func (r *Run) self() *Task {
 	t := &Task{g: g, BG: true, Idx: -1, resume: make(chan struct{})}
 	r.addSlot(t)
 	return t
+}
+
+// sleepIn: the caller sleeps for d of the bubble's clock inside a simulated
+// device. While anybody sleeps no clock event is offered: the goroutine a tick
+// is meant for may be the sleeper (a flush loop inside a slow device), the tick
+// would wait in its channel, and a stop request arriving meanwhile would leave
+// the choice between the two to Go's select, which no seed decides.
+//
+//go:norace
+func (r *Run) sleepIn(d time.Duration) {
+	r.Sleepers.Add(1)
+	time.Sleep(d)
+	r.Sleepers.Add(-1)
 }
 
 // Self returns the calling task (nil on the root goroutine).
